@@ -43,6 +43,9 @@ func init() {
 			kvLookupVisitsEveryTable(r)
 			kvLookupCoversAllTables(r)
 			c09ExplicitExpiryWins(r)
+			customConfigOverrides(r)
+			optionGroups(r)
+			c03PreviousOwners(r)
 			c09SanitizeKeepsVersions(r)
 			c06CollectedVersionsComplete(r)
 			c09RelativeExpiryFromNow(r)
